@@ -47,7 +47,7 @@ TSkip == /\ l <= Len(Tr) /\ E.e \in {"pool", "poolstop", "Reset", "call.destroy"
          /\ (E.e = "ret.cancel" => owed[E.t] = << >>)
          /\ l' = l + 1 /\ Keep(<<st, owed, devs, J, reqs, dthr>>)
 TClient == /\ IsEv("client") /\ E.rc = 0
-           /\ st' = InitState(E.smin, E.smax, E.nas, E.nthr)
+           /\ st' = [InitState(E.smin, E.smax, E.nas, E.nthr) EXCEPT !.cfg.rcvkb = E.rcvkb, !.cfg.sndkb = E.sndkb]
            /\ owed' = [t \in 0..(E.nthr - 1) |-> << >>]
            /\ J' = J0 /\ reqs' = EmptyMap /\ dthr' = {} /\ Keep(<<devs>>)
 TServer == /\ IsEv("server") /\ E.rc = 0 /\ E.k = Len(st.srv) + 1
@@ -72,6 +72,7 @@ TSrvTx == /\ IsEv("srv.tx") /\ E.x \in DOMAIN reqs /\ E.kind \in ReplyKinds
 AllQuiet == \A t \in DOMAIN owed : owed[t] = << >> \/ (\A n \in 1..Len(owed[t]) : owed[t][n].e = "maycrash")
 TSettled == /\ IsEv("settled") /\ AllQuiet
             /\ E.qmem = Cardinality(Pending(st)) /\ E.tfds = NTimers(st) /\ E.skts = NSocks(st)
+            /\ E.unread = 0          \* the client reads what arrives on its sockets (the scenario waited for it)
             /\ owed' = [t \in DOMAIN owed |-> << >>]
             /\ Keep(<<st, devs, J, reqs, dthr>>)
 TRetDestroy == /\ IsEv("ret.destroy") /\ AllQuiet /\ dthr = DOMAIN owed
@@ -124,6 +125,9 @@ MatchOut(o, e) ==
   ELSE CASE o.e = "tmr" ->
               IF <<o.s - 1, o.fam, o.i, o.op, o.ms, o.had>> = <<e.s, e.fam, e.i, e.op, e.ms, e.had>> THEN {} ELSE NoMatch
          [] o.e = "skt.new" -> IF <<o.u, o.fam, o.rc>> = <<e.u, e.fam, e.rc>> THEN {} ELSE NoMatch
+         [] o.e = "skt.buf" ->
+              IF <<o.u, o.opt>> # <<e.u, e.opt>> THEN NoMatch
+              ELSE IF o.val = e.val THEN {} ELSE IF o.val = e.val * 1024 THEN {DvBufUnits} ELSE NoMatch
          [] o.e = "skt.close" -> IF <<o.u, o.s - 1, o.fam>> = <<e.u, e.s, e.fam>> THEN {} ELSE NoMatch
          [] o.e = "tx" ->
               IF <<o.x, o.u, o.s - 1, o.fam, o.k, o.i, o.nonce, o.sig, o.pwd, o.rc>> # <<e.x, e.u, e.s, e.fam, e.k, e.i, e.nonce, e.sig, e.pwd, e.rc>>
@@ -135,7 +139,7 @@ MatchOut(o, e) ==
               ELSE IF <<o.d, o.code>> = <<e.d, e.code>> THEN {}
               ELSE IF o.err = 0 /\ e.d = 0 /\ e.code = 1 THEN {DvReply} ELSE NoMatch
          [] OTHER -> NoMatch
-OutKinds == {"tmr", "skt.new", "skt.close", "tx", "cb"}
+OutKinds == {"tmr", "skt.new", "skt.buf", "skt.close", "tx", "cb"}
 RECURSIVE SkipMarks(_)
 SkipMarks(q) == IF q # << >> /\ Head(q).e = "maycrash" THEN SkipMarks(Tail(q)) ELSE q
 TOut == /\ l <= Len(Tr) /\ E.e \in OutKinds /\ E.t \in DOMAIN owed
